@@ -743,6 +743,8 @@ class Exec:
 
     def assign(self, t, v, st, node):
         if isinstance(t, ast.Name):
+            if t.id in getattr(self.c, 'name_locals', ()) and isinstance(v, SSeq) and v.arr is None:
+                v = V.named(v, t.id)
             st.locals[t.id] = v
         elif isinstance(t, (ast.Tuple, ast.List)):
             if isinstance(v, Ref):
@@ -874,7 +876,7 @@ class Exec:
         n1 = [o for o in o1 if o.kind == 'normal']
         n2 = [o for o in o2 if o.kind == 'normal']
         rest = [o for o in o1 + o2 if o.kind != 'normal']
-        if len(n1) == 1 and len(n2) == 1:
+        if len(n1) == 1 and len(n2) == 1 and not getattr(self.c, 'no_merge', False):
             try:
                 merged = merge_states(t, len(st.pc), n1[0].st, n2[0].st)
                 return rest + [Outcome('normal', merged)]
